@@ -281,6 +281,8 @@ class InputSchema:
             d = {"type_id": "string"}
             d.update({k: v for k, v in t[1].items() if v is not None})
             return d
+        if t[0] == "pattern":
+            return {"type_id": "pattern"}
         if t[0] == "enum":
             return {"type_id": "enum_string", "values": {v: {} for v in t[1]}}
         if t[0] == "raw":
